@@ -114,7 +114,8 @@ type runner struct {
 	keys   [][]byte
 	name   map[string]int
 	s      store
-	tokens []uint64 // every token granted so far
+	tokens []uint64 // every token granted so far (lease family: one lease)
+	tokOf  map[int][]uint64 // per key
 	dsts   map[string]store
 	ctx    context.Context
 }
@@ -273,6 +274,10 @@ func (r *runner) do(op Op) map[string]any {
 		tok, err := kv.Acquire(r.ctx, key, time.Duration(op.TTL)*500*time.Millisecond)
 		if err == nil {
 			r.tokens = append(r.tokens, tok)
+			if r.tokOf == nil {
+				r.tokOf = map[int][]uint64{}
+			}
+			r.tokOf[op.K] = append(r.tokOf[op.K], tok)
 			return map[string]any{"e": "ok", "tok": "new"}
 		}
 		return map[string]any{"e": errName(err)}
@@ -280,11 +285,19 @@ func (r *runner) do(op Op) map[string]any {
 		tok, err := kv.Renew(r.ctx, key, time.Duration(op.TTL)*500*time.Millisecond, r.token(op.Tok))
 		if err == nil {
 			r.tokens = append(r.tokens, tok)
+			if r.tokOf == nil {
+				r.tokOf = map[int][]uint64{}
+			}
+			r.tokOf[op.K] = append(r.tokOf[op.K], tok)
 			return map[string]any{"e": "ok", "tok": "new"}
 		}
 		return map[string]any{"e": errName(err)}
 	case "release":
-		return map[string]any{"e": errName(kv.Release(r.ctx, key, r.token(op.Tok)))}
+		tok := r.token(op.Tok)
+		if l := r.tokOf[op.K]; op.Tok == "cur" && len(l) > 0 {
+			tok = l[len(l)-1] // per-key bookkeeping (range family: several leases)
+		}
+		return map[string]any{"e": errName(kv.Release(r.ctx, key, tok))}
 	}
 	panic("op " + op.M)
 }
